@@ -17,7 +17,6 @@
 package ev
 
 import (
-	"time"
 	"bufio"
 	"crypto/sha256"
 	"encoding/binary"
@@ -33,7 +32,9 @@ import (
 	"strconv"
 	"strings"
 	"sync"
+	"sync/atomic"
 	"testing"
+	"time"
 
 	"pgregory.net/rapid"
 )
@@ -574,6 +575,16 @@ func (e *Enumerator) Report(cs any, o Outcome, err error) bool {
 // must not be mistaken for a hang: after the soft limit the wait goes on (the computation keeps
 // running) until the hard limit; ok is false only when nothing arrived by then.
 func Await[T any](done <-chan T, soft, hard time.Duration) (v T, ok bool) {
+	if hangSeen.Load() && hard > AfterHangLimit {
+		// a wait already ran into the hard limit in this process: what follows is mostly the
+		// shrinking of that failure, which must finish within the check's own time limit
+		hard = max(soft, AfterHangLimit)
+	}
+	defer func() {
+		if !ok {
+			hangSeen.Store(true)
+		}
+	}()
 	t := time.NewTimer(soft)
 	defer t.Stop()
 	select {
@@ -596,3 +607,9 @@ func Await[T any](done <-chan T, soft, hard time.Duration) (v T, ok bool) {
 // HangLimit is the hard limit used with Await: what takes milliseconds and has not finished
 // after five minutes does not terminate.
 const HangLimit = 5 * time.Minute
+
+// AfterHangLimit replaces the hard limit of Await once one wait in the process has run into
+// its hard limit.
+const AfterHangLimit = 40 * time.Second
+
+var hangSeen atomic.Bool
